@@ -525,6 +525,9 @@ impl World {
             .live(i)
             .map(|l| l.rn.raft.prs().conf().voters().is_singleton())
             .unwrap_or(false);
+        // circumstances that distinguish the recorded become_leader finding from any other way
+        // of reaching the same assertion
+        let loose_pending = self.live(i).map(|l| l.held.iter().any(|h| h.synced)).unwrap_or(false);
         ctx.v(
             "C20",
             format!(
@@ -533,7 +536,13 @@ impl World {
                 file,
                 site,
                 short.lines().next().unwrap_or(""),
-                if singleton { " [singleton-voter]" } else { "" }
+                if singleton {
+                    " [singleton-voter]"
+                } else if loose_pending {
+                    " [loose-async: a fsynced Ready is not yet notified]"
+                } else {
+                    ""
+                }
             ),
             format!("node {} panicked in {}: {} @ {}", i + 1, what, msg, loc),
         );
@@ -1371,6 +1380,11 @@ impl World {
             Action::Settle0(id) => self.settle_node(id as usize - 1, ctx).is_some(),
             Action::Isolate(id) => {
                 self.net.retain(|(f, t), _| *f != id && *t != id);
+                true
+            }
+            Action::SetPrio(id, p) => {
+                let l = self.nodes[id as usize - 1].live.as_mut().unwrap();
+                l.rn.raft.set_priority(p as i64);
                 true
             }
             Action::DropAll => {
